@@ -82,7 +82,7 @@ def build(prog: Program):
         out = []
         for i in range(nfrag):
             fl = (UNORD if unordered else 0) | (FIRST if i == 0 else 0) | (LAST if i == nfrag - 1 else 0)
-            out.append(chunk(first_tsn + i, stream, seq, fl, f"{tag}{i}".encode(), policy, 1 if nsent is None or i < nsent else 0))
+            out.append(chunk((first_tsn + i) % (1 << 32), stream, seq, fl, f"{tag}{i}".encode(), policy, 1 if nsent is None or i < nsent else 0))
         return out
 
 
